@@ -339,22 +339,27 @@ func (k Keeper) ConvertGasFeesToUsdc(ctx sdk.Context, baseCurrency string, addre
 			continue
 		}
 
-		tokenOutAmount, err := k.amm.InternalSwapExactAmountIn(ctx, address, address, pool, tokenIn, baseCurrency, math.ZeroInt(), math.LegacyZeroDec())
+		// swap on a cache context so that a failed conversion leaves no partial state behind
+		cacheCtx, write := ctx.CacheContext()
+		tokenOutAmount, err := k.amm.InternalSwapExactAmountIn(cacheCtx, address, address, pool, tokenIn, baseCurrency, math.ZeroInt(), math.LegacyZeroDec())
 		if err != nil {
-			// Continue as we can swap it when this amount is higher
+			// Continue as we can swap it in a later block (amount too low, price feed missing, ...):
+			// a fee denom that cannot be converted right now must not fail the end blocker
 			if err == ammtypes.ErrTokenOutAmountZero {
 				ctx.Logger().Info("Token out amount is zero(skipping conversion) for denom: " + tokenIn.Denom)
-				ctx.EventManager().EmitEvents(sdk.Events{
-					sdk.NewEvent(
-						types.TypeEvtSkipSwap,
-						sdk.NewAttribute("Token denom", tokenIn.Denom),
-						sdk.NewAttribute("Token amount", "0"),
-					),
-				})
-				continue
+			} else {
+				ctx.Logger().Error("Skipping fee conversion for denom: "+tokenIn.Denom, "error", err)
 			}
-			return sdk.Coins{}, err
+			ctx.EventManager().EmitEvents(sdk.Events{
+				sdk.NewEvent(
+					types.TypeEvtSkipSwap,
+					sdk.NewAttribute("Token denom", tokenIn.Denom),
+					sdk.NewAttribute("Token amount", "0"),
+				),
+			})
+			continue
 		}
+		write()
 
 		// Swapped USDC coin
 		swappedCoins := sdk.NewCoins(sdk.NewCoin(baseCurrency, tokenOutAmount))
